@@ -101,13 +101,86 @@ def run_graphs(chk, scratch, rnd, n):
     chk.count("import_graph_diagnostics", ndiag)
 
 
+def run_illformed(chk, scratch, rnd, tier):
+    """statically ill-formed but syntactically well-formed programs: C04's catalogue of single static faults (undeclared names,
+    redeclarations, operand types, Konstante mutation, loop control outside loops, missing returns, non-public names of imports,
+    wrong articles) and their well-formed twins, each at the sites {top, if, loop, function, nested}. Token-level mutants rarely
+    reach the resolver/typechecker branches behind such faults; here only totality is judged (C04 judges the verdict)."""
+    from checks import c04
+    cases = []
+    stm = c04.faults(rnd, 0)
+    opf = c04.operand_faults()
+    top = c04.toplevel_faults()
+    sites = c04.SITES if tier == "thorough" else None
+    n = 0
+    for cls, bad, good in list(stm) + list(opf):
+        for site in (sites or [rnd.choice(c04.SITES)]):
+            if cls in ("break outside loop", "continue outside loop") and site in ("loop", "nested"):
+                continue
+            for which, tail in (("fault", bad), ("twin", good)):
+                n += 1
+                cases.append(("%s|%s|%s" % (cls, site, which), c04.OPERAND_PRELUDE + c04.place(tail, site).replace("%N%", "_%d" % n), {}))
+    for cls, bad, good, files in top:
+        for which, tail in (("fault", bad), ("twin", good)):
+            n += 1
+            suf = "_%d" % n
+            cases.append(("%s|top|%s" % (cls, which), c04.OPERAND_PRELUDE + tail.replace("%N%", suf), {fn.replace("%N%", suf): c for fn, c in files.items()}))
+    chunks = [cases[i::vlib.NCPU] for i in range(vlib.NCPU)]
+
+    def work(arg):
+        wi, chunk = arg
+        pr = Probe(scratch)
+        d = os.path.join(scratch, "ill%d" % wi)
+        os.makedirs(d, exist_ok=True)
+        outs = []
+        for k, (name, src, files) in enumerate(chunk):
+            p = os.path.join(d, "c%d.ddp" % k)
+            open(p, "w").write(src)
+            for fn, content in files.items():
+                open(os.path.join(d, fn), "w").write(content)
+            try:
+                r = pr.request({"op": "parse", "id": name, "file": p, "cpu_sec": 10})
+                outs.append((name, src, files, r, None))
+            except ProbeDied as e:
+                outs.append((name, src, files, None, e))
+        pr.close()
+        return outs
+
+    rejected = 0
+    for outs in vlib.pmap(work, [(i, c) for i, c in enumerate(chunks) if c]):
+        for name, src, files, r, died in outs:
+            chk.evaluations += 1
+            chk.distinct.add("ill:" + name)
+            cls = name.split("|")[0]
+            fl = dict(files, **{"input.ddp": src})
+            if died is not None:
+                kind, frame = vlib.classify_death(died.stderr_tail)
+                if died.marker:
+                    kind = died.marker.split()[0]
+                if kind == "WALLCLOCK":
+                    chk.inconclusive += 1
+                    continue
+                fl["stderr.txt"] = died.stderr_tail
+                chk.violation({"kind": kind, "frame": frame, "illformed": cls}, files=fl, text="worker died on a statically ill-formed program: " + name)
+                continue
+            if r.get("panic"):
+                fl["result.json"] = json.dumps(r, indent=1, ensure_ascii=False)
+                chk.violation({"kind": "panic", "frame": r.get("frame", ""), "panic": r["panic"][:160], "illformed": cls}, files=fl,
+                              text="panic on a statically ill-formed program: " + name)
+                continue
+            if r.get("errors"):
+                rejected += 1
+    chk.count("illformed_programs", len(cases))
+    chk.count("illformed_programs_rejected_with_diagnostics", rejected)
+
+
 def run(tier):
     vlib.ensure_build(frontend_only=True)
     chk = Check(PID, tier)
     seed = chk.seed
     total, ngraphs = (24000, 150) if tier == "quick" else (600000, 2000)
     chk.rule = ("mutants: case i is derived from (repository .ddp corpus, VERIF_SEED, i) by 1-3 mutators (token/line/byte/structure level, import "
-                "statements, CRLF), <= 8 KiB; import graphs: fixed hostile catalogue + 48 generic-instantiation graphs (polymorphic recursion over 1-4 types, 4 module layouts) + seeded random graphs of 2-7 modules. A case is distinct by the "
+                "statements, CRLF), <= 8 KiB; import graphs: fixed hostile catalogue + 48 generic-instantiation graphs (polymorphic recursion over 1-4 types, 4 module layouts) + seeded random graphs of 2-7 modules; statically ill-formed programs: every entry of C04's single-fault catalogue and its well-formed twin at a site (thorough: at every site). A case is distinct by the "
                 "hash of its bytes (mutants) or its graph id; every case is non-trivial (it is parsed by the real front end). Oracle: worker returns "
                 "without panic/fatal error; CPU <= 5 s + 2 ms/byte; RSS <= 256 MiB + 64 KiB/byte; Go max stack 256 MiB.")
     chk.assumptions = ["inputs are at most 8 KiB; import graphs at most 7 modules", "a worker death that does not reproduce alone in a fresh worker is counted inconclusive"]
@@ -125,6 +198,7 @@ def run(tier):
                 chk.sample({"mutant": i, "seed_file": os.path.relpath(info["seed_file"], res["corpus0"]), "bytes": info["bytes"],
                             "head": open(p, "rb").read()[:200].decode("utf-8", "replace")})
         run_graphs(chk, sc.path, random.Random(seed), ngraphs)
+        run_illformed(chk, sc.path, random.Random("%d/C03/ill" % seed), tier)
     return chk.finish(min_events=1000)
 
 
@@ -136,7 +210,9 @@ def replay(path):
         if os.path.exists(inp):
             d = sc.sub("r")
             t = os.path.join(d, "input.ddp")
-            open(t, "wb").write(open(inp, "rb").read())
+            for fn in os.listdir(path):    # modules imported by an ill-formed catalogue program lie next to it
+                if fn.endswith(".ddp"):
+                    open(os.path.join(d, fn), "wb").write(open(os.path.join(path, fn), "rb").read())
             try:
                 r = pr.request({"op": "parse", "id": "replay", "file": t, "cpu_sec": 30})
                 print(json.dumps({k: r.get(k) for k in ("panic", "frame", "errors", "faulty")}, ensure_ascii=False))
